@@ -147,7 +147,9 @@ PROPS.update({
              "present with its value in the produced state (unless the action returned null). non-trivial = a state with a "
              "permanent binding moved through an action node or a guarded branch.",
         assumptions=["an action that returns null (no bindings at all) is outside the property's 'returns bindings'"],
-        runs=[step_run("c18", "no_mismatches", "c18_violations", "c18_nontrivial")],
+        runs=[step_run("c18", "no_mismatches", "c18_violations", "c18_nontrivial"),
+              dict(walk_run("c18", "no_mismatches", "c18_walk_violations", "c18_walk_nontrivial", n=(240, 4800)),
+                   opts=dict(mode="c18", cycles="1"))],
     ),
 })
 
